@@ -171,6 +171,71 @@ class HelpersContent:
         close_container(out, m, f)
         return types
 
+    # -------------------------------------------------------------------------------- multi_ref
+    def emit_multi_ref(self, out: Out, probe: bool, record: bool = True):
+        f = self.file
+        m = one(self.items, 'mod', 'multi_ref')
+        open_container(out, m, f, '    use vstd::prelude::*;\n    use crate::{yaserde, xml};')
+        emit_uses(out, m, f)
+        emit_verbatim(out, child(m, 'struct', 'MultiRef'), f)
+        out.spec(sec('M_spec.rs', 'multiref-view'))
+        known = set()
+
+        def impl(name_re, fns, members_section=None):
+            im = child(m, 'impl', name_re)
+            known.add(id(im))
+            open_container(out, im, f)
+            if members_section:
+                out.spec(sec('M_spec.rs', members_section))
+            for c in im.children:
+                if c.kind == 'type':
+                    emit_verbatim(out, c, f)
+            seen = set()
+            for c in im.children:
+                if c.kind != 'fn':
+                    continue
+                if c.name not in fns:
+                    raise AnchorLost(f'{im.path()}: method {c.name} has no contract')
+                seen.add(c.name)
+                kw = dict(fns[c.name])
+                fid = kw.pop('fid')
+                splice_fn(out, c, f, fid, probe=probe, record=record, **kw)
+            if seen != set(fns):
+                raise AnchorLost(f'{im.path()}: methods {sorted(set(fns) - seen)} not found')
+            close_container(out, im, f)
+
+        P = {'origin': None}
+        impl(r'< T > MultiRef < T >', {'new': dict(fid='multi_ref::MultiRef::new', ensures=[('wraps-value', 'res.get() == inner')],
+                                                   origin={'wraps-value': 'property'})})
+        impl(r'< C > CheckRestrictions for MultiRef < C > where C : CheckRestrictions',
+             {'check_restrictions': dict(fid='multi_ref::MultiRef::check_restrictions', inherits=['accepts-valid', 'rejects-invalid'])},
+             'check-restrictions-members')
+        impl(r'< T : YaDeserialize > YaDeserialize for MultiRef < T >',
+             {'deserialize': dict(fid='multi_ref::MultiRef::deserialize', inherits=['deserializes-as-inner'])}, 'deserialize-members')
+        impl(r'< T : YaSerialize > YaSerialize for MultiRef < T >',
+             {'serialize': dict(fid='multi_ref::MultiRef::serialize', inherits=['serializes-as-inner']),
+              'serialize_attributes': dict(fid='multi_ref::MultiRef::serialize_attributes', inherits=['attributes-as-inner'])},
+             'serialize-members')
+        impl(r'< T : Default > Default for MultiRef < T >', {'default': dict(fid='multi_ref::MultiRef::default')})
+        impl(r'< T : Clone > Clone for MultiRef < T >',
+             {'clone': dict(fid='multi_ref::MultiRef::clone', ensures=[('clone-same-value', 'res.get() == self.get()')],
+                            origin={'clone-same-value': 'property'})})
+        impl(r'< T > Deref for MultiRef < T >',
+             {'deref': dict(fid='multi_ref::MultiRef::deref', ensures=[('deref-is-inner', '**res == self.get()')],
+                            origin={'deref-is-inner': 'helper'})})
+        for c in m.children:
+            if c.kind == 'impl' and id(c) not in known:
+                if 'Debug' in c.name:
+                    out.dropped.append(f'{c.path()} (Debug output is not part of the property)')
+                else:
+                    # an impl this table does not know: keep the text compiling, never claim it
+                    emit_verbatim(out, c, f)
+                    out.uncontracted.append(f'{f}: impl {c.name} (line {c.line_span[0]})')
+            if c.kind == 'fn':
+                emit_verbatim(out, c, f)
+                out.uncontracted.append(f'{f}: fn {c.name} (line {c.line_span[0]})')
+        close_container(out, m, f)
+
     @staticmethod
     def _param_name(fn: Item) -> str:
         # second parameter name of check_restrictions
